@@ -976,6 +976,57 @@ fn run_budget(prop: &'static str) {
         }
     }
 }
+/// One ready child among pending ones, placed around the per-call budget (61 child polls, twice that for two calls): the
+/// result of a child poll is never thrown away when a call stops early (C02), and the finished child is released in the
+/// call that polled it (C05).
+fn run_budget_edge(prop: &'static str) {
+    if prop != "C02" && prop != "C05" {
+        return;
+    }
+    for kind in 0..4usize {
+        for &r in &[0usize, 58, 59, 60, 61, 62, 63, 120, 121, 122, 123, 124] {
+            let n = r + 3;
+            let mut coll = match kind {
+                0 => Coll::Fub(FuturesUnorderedBounded::new(n)),
+                1 => Coll::Fu(FuturesUnordered::new()),
+                2 => Coll::Fob(FuturesOrderedBounded::new(n)),
+                _ => Coll::Fo(FuturesOrdered::new()),
+            };
+            let scenario = format!("{}: {n} futures pushed, only future {r} is ready, the others sleep", coll.name());
+            let mut children: Vec<St> = vec![];
+            for id in 0..n {
+                let st: St = Rc::new(ChildSt::default());
+                st.ready.set(id == r);
+                children.push(st.clone());
+                if coll.push_back(Fut::new(id, st)).is_err() { return; }
+            }
+            let tw = Arc::new(CountWaker(AtomicUsize::new(0)));
+            let waker = Waker::from(tw.clone());
+            let mut cx = Context::from_waker(&waker);
+            let mut hist = vec![format!("push x{n} (future {r} ready)")];
+            let mut yielded = false;
+            for _ in 0..(n / 30 + 4) {
+                let res = coll.poll(&mut cx);
+                hist.push(format!("poll -> {}", match &res { Poll::Ready(Some(o)) => format!("output {}", o.id), Poll::Ready(None) => "None".into(), Poll::Pending => "Pending".into() }));
+                let c = &children[r];
+                if let Poll::Ready(Some(o)) = &res { if o.id == r { yielded = true; } }
+                if c.done.get() && c.dropped.get() == 0 && prop == "C05" {
+                    report(&Fail { prop, scenario: scenario.clone(), history: hist.clone(), what: format!("future {r} returned Ready during this call and is still held when the call returns") });
+                }
+                if c.polled_after_done.get() && prop == "C05" {
+                    report(&Fail { prop, scenario: scenario.clone(), history: hist.clone(), what: format!("future {r} was polled again after it returned Ready") });
+                }
+                if c.done.get() && !yielded && c.out_dropped.get() > 0 && prop == "C02" {
+                    report(&Fail { prop, scenario: scenario.clone(), history: hist.clone(), what: format!("the output of future {r} was dropped inside the collection without being yielded") });
+                }
+                drop(res);
+            }
+            if kind < 2 && !yielded && prop == "C02" {
+                report(&Fail { prop, scenario, history: hist, what: format!("future {r} is ready (it was polled {} times) but its output was never yielded in {} calls", children[r].polls.get(), n / 30 + 4) });
+            }
+        }
+    }
+}
 /// C14: children that wake themselves in the very poll in which they complete leave stale entries in the ready queue; with
 /// one sleeping child left and nobody waking anybody, a quiet Pending (task waker not invoked) must be reached within
 /// held + 2 polls.
@@ -2537,8 +2588,12 @@ fn main() {
             run_collections(prop, seed, iters);
             run_merge(prop, seed, iters / 4);
         }
-        "C02" => run_collections(prop, seed, iters),
+        "C02" => {
+            run_budget_edge(prop);
+            run_collections(prop, seed, iters);
+        }
         "C05" => {
+            run_budget_edge(prop);
             run_collections(prop, seed, iters);
             run_merge(prop, seed, iters / 2);
             run_adapters(prop, seed, iters / 4);
